@@ -71,3 +71,20 @@ package utils
 //@   props C20
 //@   modifies everything
 //@   ensures hijack_forwarded_or_error: calls(Hijack) == 1 || result2 != nil
+
+// ---- C16: the default error handler maps failures to gateway statuses ----------------------------
+
+//@ iface net.Error.Timeout
+//@   params self
+
+//@ func (*StdHandler).ServeHTTP
+//@   props C16 C20
+//@   requires w != nil && e != nil
+//@   modifies everything
+//@   ensures one_status_then_body: calls(w.WriteHeader) == 1 && calls(w.Write) == 1 && before(w.WriteHeader, w.Write)
+//@   ensures timeout_is_504: implements(err, "net.Error") && callres(Timeout, 0, 0) ==> callarg(w.WriteHeader, 0, 0) == 504
+//@   ensures other_network_error_is_502: implements(err, "net.Error") && !callres(Timeout, 0, 0) ==> callarg(w.WriteHeader, 0, 0) == 502
+//@   ensures eof_is_502: !implements(err, "net.Error") && callres(Is, 0, 0) ==> callarg(w.WriteHeader, 0, 0) == 502 && callarg(Is, 0, 1) == global("io.EOF")
+//@   ensures client_gone_is_499: !implements(err, "net.Error") && !callres(Is, 0, 0) && callres(Is, 1, 0) ==> callarg(w.WriteHeader, 0, 0) == 499 && callarg(Is, 1, 1) == global("context.Canceled")
+//@   ensures anything_else_is_500: !implements(err, "net.Error") && !callres(Is, 0, 0) && !callres(Is, 1, 0) ==> callarg(w.WriteHeader, 0, 0) == 500
+//@   ensures same_error_examined: !implements(err, "net.Error") ==> callarg(Is, 0, 0) == err
